@@ -283,7 +283,7 @@ static void hist_user_workspace(hist_t *h)
     g_track = 0;
     if (info <= n) verdict_skip("workspace query returned info=%d", (int)info);
     h->lwork = (long)((double)(info - n) * f); h->lwork = (h->lwork + 15) & ~15L;
-    h->work = hx_malloc((size_t)h->lwork);
+    h->work = hx_malloc((size_t)h->lwork); memset(h->work, getenv("HX_WSFILL") ? atoi(getenv("HX_WSFILL")) : 0x7F, (size_t)h->lwork);   /* the caller's buffer is not zeroed */
     feat("user_workspace", (double)h->lwork);
     hx_free(pc); hx_free(pr);
 }
